@@ -87,6 +87,22 @@ func VH_C18_AddStream() {
 	if need == 0 {
 		vhAssert(first == SecIDEndOfChain, "empty-stream-has-no-chain")
 	}
+	for k, s := range chain {
+		// a sector in a chain is marked in use: its entry is the next sector
+		// or, for the last one, exactly ENDOFCHAIN (never FREE)
+		if k == len(chain)-1 {
+			vhAssert(r.SAT[s] == SecIDEndOfChain, "chain-terminated-by-endofchain")
+		} else {
+			vhAssert(r.SAT[s] == chain[k+1], "chain-links-in-order")
+		}
+	}
+	// nothing handed out by the next allocation may belong to the new chain
+	again := r.makeFreeSectors(2, false)
+	for _, a := range again {
+		for _, s := range chain {
+			vhAssert(a != s, "allocated-sectors-are-not-handed-out-again")
+		}
+	}
 	var stored []byte
 	for _, s := range chain {
 		if int(s) < len(pre) {
